@@ -105,6 +105,8 @@ def directed():
             if s in ("c04", "c05", "c07", "c08") and i % 3:
                 continue        # their directed lists are large and mostly dtype variations that do not touch the index width
             yield {"prop": s.upper(), "case": c}
+    for c in sub("c02").int_sweep():
+        yield {"prop": "C02", "case": c}
     for i, c in enumerate(sub("c02").sweep("quick")):
         if i % 16 == 0:
             yield {"prop": "C02", "case": c}
